@@ -153,7 +153,7 @@ static int bn_param_eq(EVP_PKEY *a, EVP_PKEY *b, const char *param)
 int main(int argc, char **argv)
 {
 	vh_args_t a;
-	static const char *SPECS_Q[] = { "rsa:2048", "rsa:2047", "rsa:2041", "ec:P-256", "ec:P-384", "ec:P-521", "ec:secp256k1", "okp:Ed25519", "okp:Ed448", "oct" };
+	static const char *SPECS_Q[] = { "rsa:2048", "rsa:2047", "rsa:2041", "rsa:3072", "ec:P-256", "ec:P-384", "ec:P-521", "ec:secp256k1", "okp:Ed25519", "okp:Ed448", "oct" };
 	static const char *SPECS_T[] = { "rsa:2048", "rsa:2047", "rsa:2041", "rsa:2049", "rsa:2050", "rsa:1024", "rsa:3072", "rsa:4096", "ec:P-256", "ec:P-384", "ec:P-521", "ec:secp256k1", "okp:Ed25519", "okp:Ed448", "oct", "oct" };
 	unsigned long nchecked = 0;
 	vh_parse_args(argc, argv, &a);
